@@ -31,6 +31,7 @@ type listTemplate struct {
 	HangBefore int    // hanging comments are inserted before the last HangBefore lines of the element
 	Blank      bool   // separate chunks with a blank line (uniform)
 	Lists      func(f *dst.File) (a, b reflect.Value)
+	NotC02     bool // a bracketed list that is not one of the sibling-list kinds C02 speaks about (round trips only)
 }
 
 func tmplBlockStmts() listTemplate {
@@ -85,6 +86,14 @@ func genDeclTemplate(name, open string, elem func(id int) string, lists func(f *
 		Elem: func(id int) []string { return []string{"\t" + elem(id)} }, Indent: "\t", Lists: lists}
 }
 
+// bracketTemplate: a list between an opening line and custom closing lines
+func bracketTemplate(name, open string, closing []string, elem func(id int) string, lists func(f *dst.File) (reflect.Value, reflect.Value)) listTemplate {
+	return listTemplate{Name: name,
+		Open:  func(l string) []string { return []string{strings.ReplaceAll(open, "%L", l)} },
+		Close: func(string) []string { return append(append([]string{}, closing...), "") },
+		Elem:  func(id int) []string { return []string{"\t" + elem(id)} }, Indent: "\t", Lists: lists, NotC02: true}
+}
+
 func tmplDecls() listTemplate {
 	return listTemplate{Name: "File.Decls",
 		Open:  func(l string) []string { return nil },
@@ -134,6 +143,24 @@ var listTemplates = []listTemplate{
 	genDeclTemplate("CompositeLit.Elts", "var %L = []int{", func(id int) string { return fmt.Sprintf("e%d,", id) }, func(f *dst.File) (reflect.Value, reflect.Value) {
 		get := func(d dst.Decl) reflect.Value {
 			return reflect.ValueOf(&d.(*dst.GenDecl).Specs[0].(*dst.ValueSpec).Values[0].(*dst.CompositeLit).Elts).Elem()
+		}
+		return get(f.Decls[0]), get(f.Decls[1])
+	}),
+	bracketTemplate("IndexListExpr.Indices", "var %L = g[", []string{"](1)"}, func(id int) string { return fmt.Sprintf("e%d,", id) }, func(f *dst.File) (reflect.Value, reflect.Value) {
+		get := func(d dst.Decl) reflect.Value {
+			return reflect.ValueOf(&d.(*dst.GenDecl).Specs[0].(*dst.ValueSpec).Values[0].(*dst.CallExpr).Fun.(*dst.IndexListExpr).Indices).Elem()
+		}
+		return get(f.Decls[0]), get(f.Decls[1])
+	}),
+	bracketTemplate("FuncDecl.Params", "func %L(", []string{") {", "}"}, func(id int) string { return fmt.Sprintf("e%d int,", id) }, func(f *dst.File) (reflect.Value, reflect.Value) {
+		get := func(d dst.Decl) reflect.Value {
+			return reflect.ValueOf(&d.(*dst.FuncDecl).Type.Params.List).Elem()
+		}
+		return get(f.Decls[0]), get(f.Decls[1])
+	}),
+	bracketTemplate("TypeSpec.TypeParams", "type %L[", []string{"] struct{}"}, func(id int) string { return fmt.Sprintf("E%d any,", id) }, func(f *dst.File) (reflect.Value, reflect.Value) {
+		get := func(d dst.Decl) reflect.Value {
+			return reflect.ValueOf(&d.(*dst.GenDecl).Specs[0].(*dst.TypeSpec).TypeParams.List).Elem()
 		}
 		return get(f.Decls[0]), get(f.Decls[1])
 	}),
